@@ -7,6 +7,7 @@ import (
 	"context"
 	"encoding/json"
 	"fmt"
+	"github.com/boltdb/bolt"
 	"math/rand/v2"
 	"os"
 	"path/filepath"
@@ -314,6 +315,7 @@ func (w *World) openStores(dir string) error {
 	if err != nil {
 		return err
 	}
+	trackDB(res)
 	if db := storage.BoltDBForSim(res); db != nil {
 		db.NoSync = true
 		// simulated disk: every page write of the allocation database is a crash point
@@ -332,6 +334,7 @@ func (w *World) openStores(dir string) error {
 	if err != nil {
 		return err
 	}
+	trackDB(pods)
 	if db := storage.BoltDBForSim(pods); db != nil {
 		db.NoSync = true
 	}
@@ -574,6 +577,7 @@ func (NodeWorld) Run(t *testing.T, scAny any, chooser simrt.Chooser, keepLog boo
 		w := &World{run: run, sc: sc, cfg: &sc.Cfg, dir: dir, faultIdx: map[string]int{}, faultPlan: map[string]string{}}
 		w.main()
 	})
+	closeDBs()
 	return res
 }
 
@@ -664,4 +668,31 @@ func (NodeWorld) Shrink(scAny any) []any {
 		out = append(out, c)
 	}
 	return out
+}
+
+// openDBs are the bolt databases opened during the current run; they are closed after the run
+// (outside the simulation), otherwise file descriptors and mapped tmpfs pages pile up over the
+// hundred thousand runs of a thorough batch.
+var openDBs []*bolt.DB
+
+func trackDB(st storage.Storage) {
+	if db := storage.BoltDBForSim(st); db != nil {
+		openDBs = append(openDBs, db)
+	}
+}
+
+func closeDBs() {
+	for _, db := range openDBs {
+		done := make(chan struct{})
+		go func() { _ = db.Close(); close(done) }()
+		select {
+		case <-done:
+		case <-time.After(20 * time.Millisecond):
+			// a task killed inside a page write still holds bolt's lock: drop the descriptor at least
+			if f := db.SimFile(); f != nil {
+				_ = f.Close()
+			}
+		}
+	}
+	openDBs = nil
 }
